@@ -130,6 +130,7 @@ pub trait Engine: Sync + Send {
 pub fn engine_by_name(name: &str) -> Option<Box<dyn Engine>> {
     match name {
         "fsfault" => Some(Box::new(crate::engine_fsfault::FsFault)),
+        "cli" => Some(Box::new(crate::engine_cli::Cli)),
         _ => None,
     }
 }
